@@ -1,6 +1,12 @@
 #!/bin/bash
 # usage: check.sh <property> <quick|thorough>
 # Runs the contract verifier for one property against /repo's current working tree.
+# quick:    every obligation with a 10 s budget per solver race (+ one retry at 30 s).
+# thorough: 60 s budgets, every solver's answer awaited and compared (a disagreement is not a
+#           proof), and - only if the property held - the must-fail corpus of the property is
+#           replayed on scratch worktrees of the CURRENT tree to measure that the contracts still
+#           detect the recorded property-breaking changes; that measurement is added to the
+#           evidence file (mutation_corpus) and never changes the exit status.
 set -u
 export GOFLAGS=-mod=mod GOPROXY=off
 unset GOTOOLCHAIN GOSUMDB 2>/dev/null || true
@@ -8,4 +14,26 @@ cd /verif
 if [ ! -x /verif/bin/gocv ] || [ -n "$(find /verif/gocv -name '*.go' -newer /verif/bin/gocv 2>/dev/null | head -1)" ]; then
   (cd /verif/gocv && go build -o /verif/bin/gocv .) || { echo "TOOL-ERROR: gocv build failed" >&2; exit 2; }
 fi
-exec /verif/bin/gocv check --property "$1" --tier "${2:-quick}"
+prop="$1"; tier="${2:-quick}"
+/verif/bin/gocv check --property "$prop" --tier "$tier"
+code=$?
+if [ "$tier" = "thorough" ] && [ $code -eq 0 ] && [ -d "/verif/selftest/$prop" ] && [ -z "${VERIF_NO_CORPUS:-}" ]; then
+  res=$(VERIF_CORPUS_QUIET=1 /verif/selftest/run.sh "$prop" 2>&1)
+  caught=$(echo "$res" | grep -c '^ok ')
+  missed=$(echo "$res" | grep -c '^MISS ')
+  skipped=$(echo "$res" | grep -c '^SELFTEST-ERROR ')
+  python3 - "$prop" "$caught" "$missed" "$skipped" <<'PY'
+import json,sys
+prop,caught,missed,skipped=sys.argv[1],int(sys.argv[2]),int(sys.argv[3]),int(sys.argv[4])
+p=f'/verif/evidence/{prop}.json'
+try:
+    e=json.load(open(p))
+    e.setdefault('coverage',{})['mutation_corpus']={'patches_caught':caught,'patches_missed':missed,'patches_not_applicable_to_this_tree':skipped,
+        'what':'each patch under /verif/selftest/<property>/ breaks the property while compiling; applied to a scratch worktree of the current tree, the quick check must report a violation'}
+    json.dump(e,open(p,'w'),indent=1)
+except Exception as ex:
+    print('note: could not add mutation_corpus to evidence:',ex,file=sys.stderr)
+PY
+  echo "$prop: mutation corpus: $caught caught, $missed missed, $skipped not applicable" >&2
+fi
+exit $code
